@@ -184,8 +184,11 @@ impl<Front: SocketHandler> RelayProxyProtocol<Front> {
                 }
             };
 
+            // The header (and any payload read along with it) stays in the
+            // buffer: `back_writable` forwards it from there. Consuming it here
+            // left nothing to write, and `back_writable` then looped forever on
+            // zero-byte writes without ever reaching `header_size`.
             self.header_size = Some(read_sz);
-            self.frontend_buffer.consume(sz);
             return SessionResult::Continue;
         }
 
